@@ -20,7 +20,14 @@ def stOfTag : Nat → Option St
   | 0 => some .alive | 1 => some .suspect | 2 => some .down | _ => none
 
 /-- The integer primitives a codec is built from: how it writes a `u16`, a `u8`, an enum tag. -/
+inductive FailMode | clean | pieces | greedy
+deriving DecidableEq, Repr
+
 structure IntCodec where
+  /-- what a failed `encode_member` does to the remaining-space counter: nothing (checks up
+      front), keeps the primitives that fitted (postcard `try_extend`), or fills the buffer
+      (bincode through `io::Write::write_all`) -/
+  failMode : FailMode
   encU16 : Nat → Bytes
   decU16 : Bytes → Option (Nat × Bytes)
   encU8 : Nat → Bytes
@@ -114,8 +121,20 @@ def decMemberG (b : Bytes) : Option (Member × Bytes) :=
         | none => none
         | some st => some (⟨i, inc, st⟩, b3)
 
+/-- space used by the longest prefix of `pieces` that fits -/
+def prefixFit : List Bytes → Nat → Nat
+  | [], _ => 0
+  | p :: ps, rem => if p.length ≤ rem then p.length + prefixFit ps (rem - p.length) else 0
+
+def failUseG (m : Member) (rem : Nat) : Nat :=
+  match I.failMode with
+  | .clean => 0
+  | .pieces => prefixFit [I.encU16 m.id.addr, I.encU16 m.id.gen, I.encU16 m.inc, I.encTag (stTag m.st)] rem
+  | .greedy => rem
+
 def mkCodec : Codec :=
-  { encHeader := encHeaderG I, decHeader := decHeaderG I, encMember := encMemberG I, decMember := decMemberG I }
+  { encHeader := encHeaderG I, decHeader := decHeaderG I, encMember := encMemberG I, decMember := decMemberG I,
+    failUse := failUseG I }
 
 end generic
 
@@ -130,7 +149,7 @@ def decU16be : Bytes → Option (Nat × Bytes)
   | _ => none
 
 def fixedInt : IntCodec :=
-  { encU16 := u16be, decU16 := decU16be, encU8 := fun n => [n % 256], decU8 := decRawU8,
+  { failMode := .clean, encU16 := u16be, decU16 := decU16be, encU8 := fun n => [n % 256], decU8 := decRawU8,
     encTag := fun n => [n % 256], decTag := decRawU8 }
 
 def fixedCodec : Codec := mkCodec fixedInt
@@ -157,7 +176,7 @@ def unleb (maxBytes lastMax : Nat) : Nat → Nat → Bytes → Option (Nat × By
       | some (hi, r') => some ((v - 128) * 128 ^ i + hi, r')
 
 def postcardInt : IntCodec :=
-  { encU16 := leb 2, decU16 := fun b => (unleb 3 3 3 0 b).map fun (n, r) => (n % 65536, r),
+  { failMode := .pieces, encU16 := leb 2, decU16 := fun b => (unleb 3 3 3 0 b).map fun (n, r) => (n % 65536, r),
     encU8 := fun n => [n % 256], decU8 := decRawU8,
     encTag := leb 4, decTag := fun b => unleb 5 15 5 0 b }
 
@@ -195,7 +214,7 @@ def bincodeDecU32 : Bytes → Option (Nat × Bytes)
     else none
 
 def bincodeInt : IntCodec :=
-  { encU16 := bincodeEnc, decU16 := bincodeDecU16, encU8 := fun n => [n % 256], decU8 := decRawU8,
+  { failMode := .greedy, encU16 := bincodeEnc, decU16 := bincodeDecU16, encU8 := fun n => [n % 256], decU8 := decRawU8,
     encTag := bincodeEnc, decTag := bincodeDecU32 }
 
 def bincodeCodec : Codec := mkCodec bincodeInt
